@@ -130,17 +130,18 @@ def linear_zero(expr, syms):
     return None
 
 
-def explicit_definition(ck, prog, fi, rule):
+def explicit_definition(ck, prog, fi, rule, plans=None, floor=12):
     """real_to_complex evaluated on explicit arrays of real symbols x[0..N-1] (exact DFT sums over roots of unity, any
     algorithm the source uses: fft/ifft, rfft/irfft, zero padding), compared with the statement: length ceil(N/2);
     (-1)^m Re(out[m]) == x[2m]; out[m] == (-1)^m * a[2m] where a is the analytic signal (spectrum h*X with the one-sided
     weights); every other axis untouched and in place."""
     import itertools
     quick = ck.run.tier == "quick"
-    plans = [((n,), 0) for n in range(1, 10 if quick else 17)]
-    plans += [((2, 5), 1), ((4, 3), 0), ((3, 2, 2), 0), ((2, 2, 4), -1), ((2, 3, 2), 1), ((5, 0), 0), ((0, 5), 1)]
-    if not quick:
-        plans += [((6, 2), 0), ((2, 7), -1), ((4, 2, 3), -3), ((3, 4, 2), 1)]
+    if plans is None:
+        plans = [((n,), 0) for n in range(1, 10 if quick else 17)]
+        plans += [((2, 5), 1), ((4, 3), 0), ((3, 2, 2), 0), ((2, 2, 4), -1), ((2, 3, 2), 1), ((5, 0), 0), ((0, 5), 1)]
+        if not quick:
+            plans += [((6, 2), 0), ((2, 7), -1), ((4, 2, 3), -3), ((3, 4, 2), 1)]
     n_done = 0
     for shape, axis in plans:
         tag = f"[explicit array, shape {shape}, axis={axis}]"
@@ -204,7 +205,7 @@ def explicit_definition(ck, prog, fi, rule):
                 "out[m] == (-1)^m * analytic(x)[2m] with one-sided weights [1, 2.., (1 if N even), 0..]; (-1)^m Re(out[m]) == x[2m]; other axes untouched",
                 bad is None, found=bad, nontrivial=True)
         n_done += 1
-    ck.run.floor(rule, "explicit-array cases decided", n_done, 12)
+    ck.run.floor(rule, "explicit-array cases decided", n_done, floor)
     return n_done
 
 
